@@ -13,13 +13,15 @@ CONSTANTS
   FeeBase = 1000
   MaxTxWeight = 226
   MaxBlockWeight = 250
-  MineWeight = 250
+  MineWeight = 300
   FeeFirst = TRUE
   TimedAlways = TRUE
   StemRecheck = "always"
   FeeOnRemainder = TRUE
   EvictMode = "nodeps"
   ReconcileMature = TRUE
+  NrdEnabled = FALSE
+  NrdHeight = 9
   ShortReorg = FALSE
   MaxBlocks = 6
   MaxSteps = 14
